@@ -5524,7 +5524,7 @@ class CodegenCtx:
             return f"state->{intexpr.ref.name}_counter";
         elif isinstance(intexpr, StringRefIntegerExpr):
             index = self._generate_code_for_int_expr(intexpr.index, ctx)
-            text = self._generate_buflike_index_expr(intexpr.ref, index)
+            text = f"(uint8_t)({self._generate_buflike_index_expr(intexpr.ref, index)})"  # bytes are 0-255 whatever the string element type
             size_str = self._generate_buflike_length_expr(intexpr.ref)
             if ProgramData.do(ProgramFlag.UNSAFE_STRING_INDEXING):
                 return text
